@@ -358,3 +358,6 @@ PROPS["C09"]["not_decided"] = [x for x in PROPS["C09"].get("not_decided", []) if
 PROPS["C01"].setdefault("assumed", [])
 PROPS["C01"]["assumed"] = [x for x in PROPS["C01"]["assumed"] if not x.startswith("independence of line endings")] + [
     "independence of line endings / blank / unparseable lines is not decided here (see C06); independence of the ORDER of distinctly named class blocks is proved (u23: built(pre ++ b1 ++ b2 ++ post) == built(pre ++ b2 ++ b1 ++ post))"]
+
+PROPS["C09"]["level_text"] = PROPS["C09"]["level_text"].replace("`test()` accepting every such file is not decided.", "`test()` accepts every such file: u9 proves it panic-free under wf_for_selftest and u23 proves wf_for_selftest for every written cache (given the watto / BTreeMap assumptions).")
+PROPS["C09"]["not_decided"] = [x for x in PROPS["C09"].get("not_decided", []) if not x.startswith("ProguardCache::test()")]
